@@ -20,6 +20,10 @@ def main():
             # violation, so the exit code is 1 whatever the Kani harnesses say; they are skipped to save 5-25 minutes
             print("Engine K skipped (VERIF_MATRIX_FAST=1 and the Engine-S part already exits 1)")
             sys.exit(1)
+        if os.environ.get("VERIF_MATRIX_NO_KANI") == "1":
+            # seeded-change bookkeeping only (seeded/pmatrix.py --no-kani): report what the Engine-S part alone says
+            print("Engine K skipped (VERIF_MATRIX_NO_KANI=1)")
+            sys.exit(s_exit)
         k_exit = subprocess.call([sys.executable, os.path.join(HERE, "kani_driver.py"), prop, "--tier", tier, "--s-exit", str(s_exit)])
         sys.exit(1 if 1 in (s_exit, k_exit) else (2 if 2 in (s_exit, k_exit) else 0))
     if prop == "C14":
